@@ -40,9 +40,22 @@ class RowHistory:
             for nick, table in tablename_for_nickname.items()
             if table != nick
         }
-        for table in tables_to_keep_history_for:
-            _make_history_table(self.conn, table)
+        # the history tables get generated names: recipe table names are
+        # case-sensitive free text, SQLite identifiers are neither
+        self.sql_names = {
+            table: f"history_{i}"
+            for i, table in enumerate(tables_to_keep_history_for)
+        }
+        for sql_name in self.sql_names.values():
+            _make_history_table(self.conn, sql_name)
         self.pickler = RestrictedPickler(_DISPATCH_TABLE, _SAFE_CLASSES)
+
+    def _sql_name(self, tablename: str) -> str:
+        """The name of the history table that holds the rows of `tablename`"""
+        try:
+            return self.sql_names[tablename]
+        except KeyError:
+            raise exc.DataGenError(f"No row history is kept for table `{tablename}`")
 
     def reset_locals(self):
         """Reset the minimum count that counts as "local" """
@@ -70,7 +83,7 @@ class RowHistory:
         # The data de-dupling algorithm would be slightly complex and slow.
         data = self.pickler.dumps(row)
         self.conn.execute(
-            f'INSERT INTO "{tablename}" VALUES (?, ?, ?, ?)',
+            f'INSERT INTO "{self._sql_name(tablename)}" VALUES (?, ?, ?, ?)',
             (row_id, nickname, nickname_id, data),
         )
 
@@ -128,7 +141,7 @@ class RowHistory:
     def load_row(self, tablename: str, row_id: int):
         """Load a row from the DB by row_id/object_id"""
         qr = self.conn.execute(
-            f'SELECT DATA FROM "{tablename}" WHERE id=?',
+            f'SELECT DATA FROM "{self._sql_name(tablename)}" WHERE id=?',
             (row_id,),
         )
         first_row = next(qr, None)
@@ -140,8 +153,9 @@ class RowHistory:
         self, tablename: str, nickname: str, nickname_id: int
     ):
         #     """Find a nicknamed row by its nickname_id"""
+        sql_name = self._sql_name(tablename)
         qr = self.conn.execute(
-            f'SELECT id FROM "{tablename}" WHERE nickname=? AND nickname_id=?',
+            f'SELECT id FROM "{sql_name}" WHERE nickname=? AND nickname_id=?',
             (nickname, nickname_id),
         )
         first_row = next(qr, None)
